@@ -63,10 +63,24 @@ def scratch_root():
     return '/tmp'
 
 
+def _limit_memory():
+    '''A damaged pickle may ask for an absurd allocation: the code under test
+    must see MemoryError, not take the machine (and the check) down.'''
+    try:
+        import resource
+        cap = int(os.environ.get('VERIF_MEM_GB', '8')) << 30
+        soft, hard = resource.getrlimit(resource.RLIMIT_AS)
+        if hard == resource.RLIM_INFINITY or cap < hard:
+            resource.setrlimit(resource.RLIMIT_AS, (cap, hard))
+    except (ImportError, ValueError, OSError):
+        pass
+
+
 def _shard_entry(args):
     func, shard, wall = args
     faulthandler.enable()
     faulthandler.dump_traceback_later(wall, exit=True)
+    _limit_memory()
     try:
         return func(shard)
     finally:
